@@ -21,19 +21,8 @@ CONSTANTS MAXOPS,
 VARIABLES st, base, chain, hist, last, nrej
 vars == <<st, base, chain, hist, last, nrej>>
 
-B0 == [ mainnet |-> TRUE, gw |-> "gw", avs |-> <<>>, usd |-> {}, tasks |-> {}, results |-> {}, chal |-> {},
-        ops |-> {"o1", "o2", "o3"}, opt |-> {[o |-> "o1", a |-> "chain"], [o |-> "o3", a |-> "chain"]}, bls |-> {},
-        ckey |-> [o1 |-> "k1", o3 |-> "k3"], vals |-> {"k1", "k3"}, nonce |-> [k1 |-> 0, k3 |-> 0], round |-> 2,
-        pv |-> [assets |-> "gw", dogfood |-> "10", exomint |-> "20", feedistribution |-> "minute", oracle |-> "100"],
-        assoc |-> {}, natdel |-> {}, newtoken |-> FALSE, chain102 |-> FALSE, tokmeta |-> FALSE, funded |-> FALSE ]
-
-B1 == [ B0 EXCEPT !.avs = [cA |-> [owners |-> {"a1"}, task |-> "cA", ver |-> 1]], !.usd = {"cA"},
-                   !.tasks = {[t |-> "cA", n |-> 1], [t |-> "cA", n |-> 2]},
-                   !.results = {[o |-> "o2", t |-> "cA", n |-> 2]},
-                   !.opt = @ \cup {[o |-> "o2", a |-> "cA"]}, !.bls = {"o2"},
-                   !.assoc = {"s2"}, !.natdel = {"s2"}, !.funded = TRUE ]
-
-BaseState(b, ch) == [ (IF b = "B0" THEN B0 ELSE B1) EXCEPT !.mainnet = (ch = "main") ]
+\* the base states B0, B1, B2 and BaseState(b, ch) are defined in Auth.tla (the trace spec compares them
+\* with the projections the harness logs at every reset)
 
 (***************************************************************************)
 (* the caller matrix                                                       *)
@@ -76,7 +65,9 @@ WithCheck(S) == S \cup {[c EXCEPT !.via = "check"] : c \in {x \in S : x.via = "t
 OpmCallers(e) ==
   LET p == Principal(e) IN WithCheck(
   {Mk("cosmos", "tx", "-", "-", "-", p, p, s) : s \in {"valid", "nopub", "noinfo"} \cup BADSIGS} \cup
-  {Mk("cosmos", "tx", "-", "-", "-", p, "a2", s) : s \in {"valid", "nopub"}}) \cup
+  \* another account signs: an unregistered EOA (a2), a registered operator (o3)
+  {Mk("cosmos", "tx", "-", "-", "-", p, "a2", s) : s \in {"valid", "nopub"}} \cup
+  {Mk("cosmos", "tx", "-", "-", "-", p, k, "valid") : k \in {"o3"} \ {p}}) \cup
   LET M == WithCarrier({Mk("cosmos", "tx", "-", "-", "-", p, p, s) : s \in MULTISIGS} \cup
                        {Mk("cosmos", "tx", "-", "-", "-", p, "a2", "nopub")})
   IN M \cup {[c EXCEPT !.via = "check"] : c \in {x \in M : x.carrier = "before"}}
@@ -103,10 +94,17 @@ CallersOf(e) ==
     [] e \in ORA  -> OraCallers
     [] e \in PAR  -> ParCallers
 
+\* B2 (later stages): the stage-dependent entry points only; the signer-bound messages with their
+\* single-signer DeliverTx callers (multi-signer and CheckTx classes are crossed with them in B1)
+StagedAvs == {"updateAVS", "updateAVS2", "deregisterAVS", "createTask", "challenge"}
+StagedMsg == {"SetConsKey", "SubmitTaskResult", "SubmitTaskResult2"}
+CallersFor(b, e) == IF b = "B2" /\ e \in OPM THEN {c \in CallersOf(e) : c.carrier = "-" /\ c.via = "tx"} ELSE CallersOf(e)
+
 \* which part of the matrix is exercised in which base state / chain class (keeps the number of
 \* real executions in the low hundreds; every entry point is crossed with every caller class in
 \* at least one state where its payload is feasible)
 InScope(b, ch, e) ==
+  IF b = "B2" THEN ch = "main" /\ e \in StagedAvs \cup StagedMsg ELSE
   CASE e \in GW   -> b = "B1" /\ ch = "main"
     [] e \in AVSM -> ch = "main"
     [] e \in OPP  -> ch = "main"
@@ -133,7 +131,7 @@ Do(e, c) ==
      /\ hist' = Append(hist, [ev |-> "Call", a |-> [base |-> base, chain |-> chain, e |-> e, c |-> c]])
   /\ UNCHANGED <<base, chain>>
 
-Next == \E e \in Entry : InScope(base, chain, e) /\ \E c \in CallersOf(e) : Do(e, c)
+Next == \E e \in Entry : InScope(base, chain, e) /\ \E c \in CallersFor(base, e) : Do(e, c)
 
 Spec == Init /\ [][Next]_vars
 
